@@ -35,7 +35,9 @@ type C19Case struct {
 	CancelWith string  `json:"cancel_with"` // "idle" | "pending" (a notification is waiting unread) | "mid-burst"
 }
 
-var c19Files = []string{"a.toml", "device.toml", "notes.txt", "a.toml.bak", "a.toml~", "mytoml", "x.tom", "toml", "atoml", "README"}
+// (a name is a sequence of bytes: hidden files, blanks, several dots, non-ASCII letters in UTF-8 and in a legacy 8-bit encoding)
+var c19Files = []string{"a.toml", "device.toml", "notes.txt", "a.toml.bak", "a.toml~", "mytoml", "x.tom", "toml", "atoml", "README",
+	".pad.toml", "._pad.toml", ".toml", "my pad.toml", "x.y.toml", "пульт.toml", "Ger\xe4t.toml", ".toml.swp", "a.toml.toml"}
 
 func c19IsTOML(name string) bool { return strings.HasSuffix(name, ".toml") }
 
